@@ -798,6 +798,27 @@ func diffStrings(a, b []string) []string {
 	return out
 }
 
+// e10As wraps a join case for another property's check: violations of C09 whose
+// class is in classes (nil = all) are reported under prop as well.
+func e10As(c Case, prop string, classes map[string]bool) Case {
+	inner := c.Run
+	c.ID = prop + "/" + c.ID
+	c.Run = func(r *Res) {
+		inner(r)
+		r.mu.Lock()
+		var extra []Viol
+		for _, v := range r.Viol {
+			if v.Prop == "C09" && (classes == nil || classes[v.Class]) {
+				extra = append(extra, Viol{prop, "join:" + v.Class, v.Detail})
+			}
+		}
+		r.Viol = append(r.Viol, extra...)
+		r.mu.Unlock()
+		r.Add("join-cases", 1)
+	}
+	return c
+}
+
 func init() {
 	register("E10", func(tier string, seed uint64) []Case {
 		var cases []Case
